@@ -66,7 +66,7 @@ PROPS = {
     },
     "C04": {
         "level": "exploration",
-        "technique": "property-based testing over (writer/reader program with commits, cancels, handle moves and long-lived snapshots x schedule); oracle = snapshot immutability and liveness, interval bounds and chain membership for every write handle's initial value, real-time publication, commit ledger, payload instance count",
+        "technique": "property-based testing over (writer/reader program with commits, cancels, handle moves and long-lived snapshots x schedule); oracle = snapshot immutability and liveness, interval bounds and chain membership for every write handle's initial value, real-time publication, commit ledger, payload instance count; the shared_ptr objects holding the committed value are race-checked by the happens-before monitor (model of std::shared_ptr)",
         "design_ref": "DESIGN.md §5 C04",
         "text": "Generated cow_guarded writers and readers run under generated schedules; snapshots are re-read after later commits, each write handle's starting value is checked against the sequence of "
                 "committed states with two-sided interval bounds, cancelled data must never become visible, cancel must free the writer lock while the handle object lives on, and every private copy "
